@@ -1,0 +1,35 @@
+//go:build verif
+
+package m
+
+import "time"
+
+// VerifEntries returns a copy of all routing table entries in table order.
+// Verification hook: only compiled with the "verif" build tag.
+func (rt *RoutingTable) VerifEntries() []RoutingTableEntry {
+	rt.lock.RLock()
+	defer rt.lock.RUnlock()
+
+	out := make([]RoutingTableEntry, 0, len(rt.entries))
+	for _, rte := range rt.entries {
+		out = append(out, *rte)
+	}
+	return out
+}
+
+// VerifAge lets the given duration pass for all non-peer entries by moving
+// their expiry into the past by that amount.
+// Verification hook: only compiled with the "verif" build tag.
+func (rt *RoutingTable) VerifAge(d time.Duration) {
+	rt.lock.Lock()
+	defer rt.lock.Unlock()
+
+	for i, rte := range rt.entries {
+		if rte.Source == RouteSourcePeer {
+			continue
+		}
+		aged := *rte
+		aged.Expires = aged.Expires.Add(-d)
+		rt.entries[i] = &aged
+	}
+}
